@@ -73,7 +73,13 @@ func variants(tier string) []replica.Variant {
 		// every replica combines a map-iteration policy with a shifted wall clock, interleaved
 		// CheckTx/queries and a previously constructed second application object; a divergence is
 		// attributed afterwards by re-running with the sources separated
-		out = append(out, replica.Variant{Name: fmt.Sprintf("map%d+clock+noise+second+tz+config", k), MapSeed: uint(k), ClockSec: 400 * 86400, Noise: k%2 == 1, NoiseOld: k%4 == 1, Second: k%3 == 0, TZ: []int{0, -8 * 3600, 9 * 3600}[k%3], Config: k%2 == 0, RestartAt: -1})
+		// ... and some replicas are stopped after the first block of the history and rebuilt from their
+		// database (a node constructed on existing state instead of from genesis)
+		restartAt := -1
+		if k%4 == 3 {
+			restartAt = 0
+		}
+		out = append(out, replica.Variant{Name: fmt.Sprintf("map%d+clock+noise+second+tz+config+rebuilt", k), MapSeed: uint(k), ClockSec: 400 * 86400, Noise: k%2 == 1, NoiseOld: k%4 == 1, Second: k%3 == 0, TZ: []int{0, -8 * 3600, 9 * 3600}[k%3], Config: k%2 == 0, RestartAt: restartAt})
 	}
 	return out
 }
@@ -93,6 +99,12 @@ func attribute(f *replica.Fix, h replica.History, ref replica.Trace, v replica.V
 	try("second", replica.Variant{Second: true})
 	try("timezone", replica.Variant{TZ: v.TZ})
 	try("node-config", replica.Variant{Config: v.Config})
+	if v.RestartAt >= 0 {
+		tr, _ := f.Replay(h, replica.Variant{RestartAt: v.RestartAt})
+		if replica.FirstDiff(ref, tr) >= 0 {
+			causes = append(causes, "rebuilt-from-db")
+		}
+	}
 	if len(causes) == 0 {
 		return "combination"
 	}
@@ -209,7 +221,7 @@ func Run(tier string) int {
 	res.Sample(map[string]any{"history": "{liquidate} {convertERC20} + 2 empty blocks", "variant": "map3+clock+noise+second"})
 	return engine.Finish(res, engine.Meta{
 		Property: Prop, Tier: tier, Level: "model_checking", Start: start, Alphabet: names,
-		Rule: "every history = single template, ordered pair in consecutive blocks, ordered pair in one block (thorough: pairs with a 30-day gap, all triples) over a 23-template alphabet, plus 4 governance flows alone and followed by every template once in effect and 7 life-cycle chains (incl. two day boundaries and sub-millisecond block times), executed with real InitChain/BeginBlock/DeliverTx/EndBlock/Commit; the recorded concrete blocks are replayed on 7 (thorough 23; triples 7) independently constructed replicas, each under a forced map-iteration seed combined with a +400d wall clock, interleaved CheckTx/queries (incl. eth_call/estimateGas executing the EVM at the latest and at old heights) a second application object, a different process time zone (UTC-8 / UTC+9) and different node-local app.toml options; every DeliverTx result (code, data, gas, events, log), EndBlock (validator and consensus-param updates, events), BeginBlock events and Commit app hash compared; states = distinct (call, response digest) pairs, non-trivial = history with an executed transaction",
+		Rule: "every history = single template, ordered pair in consecutive blocks, ordered pair in one block (thorough: pairs with a 30-day gap, all triples) over a 23-template alphabet, plus 4 governance flows alone and followed by every template once in effect and 7 life-cycle chains (incl. two day boundaries and sub-millisecond block times), executed with real InitChain/BeginBlock/DeliverTx/EndBlock/Commit; the recorded concrete blocks are replayed on 7 (thorough 23; triples 7) independently constructed replicas, each under a forced map-iteration seed combined with a +400d wall clock, interleaved CheckTx/queries (incl. eth_call/estimateGas executing the EVM at the latest and at old heights) a second application object, a different process time zone (UTC-8 / UTC+9), different node-local app.toml options, and (a quarter of the replicas) a stop after the first block with the node rebuilt from its database; every DeliverTx result (code, data, gas, events, log), EndBlock (validator and consensus-param updates, events), BeginBlock events and Commit app hash compared; states = distinct (call, response digest) pairs, non-trivial = history with an executed transaction",
 		Assumptions: []string{
 			"one forced random word for all maps at a time: seeds 0..7 (thorough 0..23) realise every start bucket/offset for maps of <= 8 (<= 16) entries",
 			"validator sets of 2; consensus engine not involved (ABCI level)",
